@@ -15,7 +15,7 @@ def check(pid, tier):
     ev = Evidence(pid, tier)
     out_lines, violations, machinery = [], [], []
     rng = random.Random(seed())
-    fac = tlc.emit("MetaEmit", {})[0]      # also evaluates the theorems (ASSUME) over PInfos x CInfos
+    fac = tlc.emit("MetaEmit", {"FULL": "1" if tier == "thorough" else "0"})[0]      # also evaluates the theorems (ASSUME) over PInfos x CInfos
     P, C = fac["pinfos"], fac["cinfos"]
     ev.cov["states"] += len(P) * len(C)
     ev.cov["transitions"] += len(P) * len(C)
